@@ -1,5 +1,5 @@
 import CoolerModel.Drv.JsonUtil
-import CoolerModel.Model.Coarsen
+import CoolerModel.Model.CoarsenAgg
 import CoolerModel.Model.Index
 open Lean
 namespace Cooler.Drv.C08
@@ -11,8 +11,33 @@ def tableOk (bins : BinTable) (lens : List Nat) : Bool :=
   let gs := groups bins
   validSegmentationB bins && wfB gs && decide (gs.map lastStop = lens)
 
+/-- the aggregation functions the correspondence requests by name (pandas `max`, `min`, `first`, `last`,
+`count`, `sum` on a non-empty group of integers) -/
+def aggOf (name : String) : R (List Int → Int) :=
+  match name with
+  | "sum" => pure listSum
+  | "max" => pure (fun vs => match vs with | [] => 0 | v :: rest => rest.foldl max v)
+  | "min" => pure (fun vs => match vs with | [] => 0 | v :: rest => rest.foldl min v)
+  | "first" => pure (fun vs => vs.headD 0)
+  | "last" => pure (fun vs => vs.getLastD 0)
+  | "count" => pure (fun vs => (vs.length : Int))
+  | _ => throw s!"unknown agg {name}"
+
 def handle : Handler := fun op a =>
   match op with
+  | "C08.coarsen_agg" => some do
+      -- coarsening with a requested aggregation on the value column: L0 `coarsenSpecAgg`
+      let bins ← getBins a "bins"
+      let lens ← getNats a "lens"
+      let px ← getPixels a "pixels"
+      let k ← getNat a "k"
+      let cs ← getNat a "chunksize"
+      let agg ← getStr a "agg" >>= aggOf
+      let spec := coarsenSpecAgg agg k bins px
+      return Json.mkObj [
+        ("table_ok", Json.bool (tableOk bins lens)),
+        ("pixels", jPixels spec), ("bins", jBins (coarsenBinsSpec k bins)),
+        ("l1_agrees", Json.bool (decide (coarsenAgg agg k cs lens bins px = spec)))]
   | "C08.coarsen" => some do
       let bins ← getBins a "bins"
       let lens ← getNats a "lens"
